@@ -726,7 +726,10 @@ class Interp:
             yield True, env, st
             return
         if isinstance(v, Sym):
-            raise Unsupported("truth of symbolic %r" % v)
+            # a symbolic small integer is falsy exactly when it is 0
+            yield from Cmp([(("symv", v.n), 0)], neg=True).split(
+                self, env, st)
+            return
         if isinstance(v, Opaque):
             raise Unsupported("truth of opaque value %r" % v)
         if isinstance(v, IvInt):
@@ -1274,6 +1277,19 @@ class Interp:
                     yield hasattr(o, a), env, st
                 else:
                     raise Unsupported("hasattr on %r" % (o,))
+            elif n == "getattr":
+                got = False
+                try:
+                    for v, e2, s2 in self.getattr(args[0], args[1], env, st,
+                                                  ctx):
+                        got = True
+                        yield v, e2, s2
+                except Raise as r:
+                    if "AttributeError" in str(r.exc) and len(args) > 2 \
+                            and not got:
+                        yield args[2], env, st
+                    else:
+                        raise
             elif n == "list":
                 yield list(args[0]) if args else [], env, st
             elif n == "tuple":
